@@ -428,7 +428,16 @@ def _construct_dsdl_definitions_from_namespaces(
                 p,
             )
 
-    return dsdl_file_sort([_dsdl_definition.DSDLDefinition(*p) for p in source_file_paths])
+    output = []  # type: list[ReadableDSDLFile]
+    for file_path, root_namespace_path in source_file_paths:
+        try:
+            _ = file_path.resolve().relative_to(root_namespace_path.resolve())
+        except ValueError:  # Found under the root, but it resolves to a location outside of it (a symbolic link).
+            raise _error.InvalidDefinitionError(
+                f"The file is not located under its root namespace directory {root_namespace_path}", file_path
+            ) from None
+        output.append(_dsdl_definition.DSDLDefinition(file_path, root_namespace_path))
+    return dsdl_file_sort(output)
 
 
 def _ensure_no_fixed_port_id_collisions(types: list[_serializable.CompositeType]) -> None:
